@@ -39,7 +39,7 @@ TEXTS = [
     ["<i>x</i> & y"], ["&amp; &lt;"], ["{1}{2}x"], ["one", "two", "three", "four"], ["é ü 漢"],
     ["He said", "...", "nothing"], ["?!"], ["♪ ♪"], ["100% sure %s %d %%"], ["copy C:\\new\\notes.txt \\t \\N"],
     # one line made of several adjacent text nodes: a metacharacter sequence may only come into being at the joint
-    [("a --", "> b"), "second"], [("x &", "amp; y"), ("1 <", "i> 2")],
+    [("a --", "> b"), "second"], [("x &", "amp; y"), ("1 <", "i> 2")], [("go -", "-> there"), ("a -", "-", "> b")],
     # captions that display nothing (the 'clear' cues of SAMI and DFXP sources): still one timed cue each
     ["\xa0"], [" "],
 ]
@@ -73,10 +73,15 @@ class World:
                 nodes.append(self.ev("CaptionNode.create_text(t)", t=l))
         return self.ev("Caption(s, e, n)", s=s, e=e, n=nodes)
 
-    def write(self, fn, caps, other_empty_language=False):
-        # (other_empty_language: the set also holds a language without captions, listed after the written one)
+    def write(self, fn, caps, other_empty_language=False, looked_at_first=False):
+        # (other_empty_language: the set also holds a language without captions, listed after the written one;
+        #  looked_at_first: before the write, every caption was printed and its times were formatted with both separators)
+        objs = [self.caption(*c) for c in caps]
+        if looked_at_first:
+            for c_ in objs:
+                self.ev("(repr(c), c.format_start(msec_separator=','), c.format_end(msec_separator='.'), c.format_start(), c.format_end(msec_separator=','))", c=c_)
         cs = self.ev("CaptionSet({'en-US': CaptionList(cs), 'zz': CaptionList([])})" if other_empty_language else
-                     "CaptionSet({'en-US': CaptionList(cs)})", cs=[self.caption(*c) for c in caps])
+                     "CaptionSet({'en-US': CaptionList(cs)})", cs=objs)
         self.n += 1
         return self.F.call_function(fn, [cs], {}, self_value=Stub("writer", {}, cls=fn.cls))
 
@@ -193,12 +198,16 @@ def explore(ctx, thorough):
         for i_, caps in enumerate(caption_sets(texts, thorough)):
             jobs.append((caps, False))
             if name != "SRT" and i_ % 9 == 0:         # (SRT writes every language of the set, one after the other)
-                jobs.append((caps, True))
-        for caps, other in jobs:
+                jobs.append((caps, True, False))
+            if i_ % 11 == 3:
+                jobs.append((caps, False, True))
+        jobs = [j if len(j) == 3 else (j[0], j[1], False) for j in jobs]
+        for caps, other, looked in jobs:
             n += 1
-            case = {"captions": [(s, e, ls) for s, e, ls in caps], **({"the set also holds": "a language without captions"} if other else {})}
+            case = {"captions": [(s, e, ls) for s, e, ls in caps], **({"the set also holds": "a language without captions"} if other else {}),
+                    **({"before the write": "every caption was printed and its times formatted with '.' and ','"} if looked else {})}
             try:
-                doc = W.write(fn, caps, other)
+                doc = W.write(fn, caps, other, looked)
             except FoldRaise as e:
                 bad["cues"].append(dict(case, raises=e.exc_name or str(e)))
                 continue
